@@ -44,6 +44,16 @@ func leavesJSON() []*qast.Node {
 		eq(qast.Q("/x/")),
 		eq(qast.W(`\/`)),
 		eq(qast.F("5.0")),
+		// decimals JSON writes with an exponent (below 1e-6, from 1e21)
+		eq(qast.F("0.0000001")), eq(qast.F("0.0000000025")), eq(qast.F("1e21")), eq(qast.F("123456789012345678901234.0")),
+		L(qast.Leaf{Kind: qast.LList, Field: "f", List: []qast.Value{qast.I("1"), qast.F("0.0000005")}}),
+		L(qast.Leaf{Kind: qast.LGt, Field: "f", Val: qast.F("0.0000000025")}),
+		// field names made of pattern characters, digits, key words of the encoding
+		L(qast.Leaf{Kind: qast.LEq, Field: "fo*o", Val: qast.W("bar")}),
+		L(qast.Leaf{Kind: qast.LRange, Field: "a?", Lo: qast.I("1"), Hi: qast.I("2"), Incl: true}),
+		L(qast.Leaf{Kind: qast.LList, Field: "col*", List: []qast.Value{qast.W("x"), qast.W("y")}}),
+		L(qast.Leaf{Kind: qast.LEq, Field: `\/re\/`, Val: qast.W("v")}),
+		L(qast.Leaf{Kind: qast.LGe, Field: "5", Val: qast.I("5")}),
 		eq(qast.F("1e3")),
 		eq(qast.I("-0")),
 		eq(qast.I("9223372036854775807")),
